@@ -323,9 +323,10 @@ Print Assumptions C10_relay_dotless_refuted.
    anything, or not existing; the result accepted or not by the callee's schema; the answer serializable or not; any exception
    (FailureSlicer is total: C10_failure_fits); any logging setting -- every call gets exactly the replies the property promises:
    one `answer` or `error`, none for a call the caller itself aborted; nothing is swallowed; the connection stays up.
-   inbound_ok excludes exactly two things, both shown below to break the statement on the faithful model: a non-Violation
-   exception while the answer is serialized (C10_crash_drops_connection's case), and the local-failure log being on while
-   the target / arguments cannot be formatted (C10_unrenderable_delivery_refuted: a finding). *)
+   inbound_ok excludes exactly one thing, shown below to break the statement on the faithful model: a non-Violation exception
+   while the answer is serialized (C10_answer_crash_drops_connection; C10_crash_drops_connection's case).  The second former
+   exclusion -- local-failure log on while the target / arguments cannot be formatted -- is gone since foolscap guards the log
+   entry (fix eec6df0; the guard is read from the source: CLogFailureGuarded): C10_unrenderable_delivery_answered. *)
 Theorem C10_every_call_answered_once : forall ins s, cup s = true -> Forall inbound_ok ins -> NoDup (map reqid_of ins) ->
   let s' := handle_all ins s in
   cup s' = true /\ swallowed s' = swallowed s /\
@@ -336,7 +337,6 @@ Print Assumptions C10_every_call_answered_once.
 
 (* one delivery, with everything it leaves behind: one message for its request id, its activeLocalCalls entry gone *)
 Theorem C10_delivery_answered_once : forall e s, cup s = true -> d_reqid e <> 0 -> d_answer e <> SCrash ->
-  (d_log_local e = false \/ d_repr_raises e = false) ->
   outcome_ok (d_reqid e) 1 (active s) s (handle (InDelivered e) s).
 Proof. exact delivery_answered_once. Qed.
 Print Assumptions C10_delivery_answered_once.
@@ -349,17 +349,18 @@ Theorem C10_rejected_answered_once : forall abort e s, cup s = true -> d_reqid e
 Proof. exact rejected_answered_once. Qed.
 Print Assumptions C10_rejected_answered_once.
 
-(* FINDING (replayed on the real Broker: signature oracle/call-not-failed/local-failure-log-renders-target): with the
-   local-failure log on (Tub option logLocalFailures, or a Broker without Tub) a failing call on a target -- or with arguments --
-   whose "%s" formatting raises is never answered: logFailure raises inside callFailed before the error is sent, the chain's
-   log.err swallows it, the caller's Deferred never fires and the activeLocalCalls entry stays *)
-Theorem C10_unrenderable_delivery_refuted : exists e s, cup s = true /\ d_reqid e <> 0 /\ d_answer e = SOk /\
+(* formerly C10_unrenderable_delivery_refuted (finding oracle/call-not-failed/local-failure-log-renders-target, repaired in foolscap
+   by guarding the log entry; the input stays a regression witness under the same signature): with the local-failure log on, a
+   failing call on a target -- or with arguments -- whose "%s" formatting raises is answered by its `error` like any other;
+   nothing is swallowed, the activeLocalCalls entry is gone *)
+Theorem C10_unrenderable_delivery_answered : forall e s, cup s = true -> d_reqid e <> 0 -> d_answer e <> SCrash ->
+  d_log_local e = true -> d_repr_raises e = true -> d_raises e = true ->
   let s' := handle (InDelivered e) s in
-  sent s' = sent s /\ active s' = d_reqid e :: active s /\ swallowed s' = S (swallowed s) /\ cup s' = true.
-Proof. exact unrenderable_delivery_refuted. Qed.
-Print Assumptions C10_unrenderable_delivery_refuted.
+  (exists fs, sent s' = sent s ++ [MError (d_reqid e) fs]) /\ active s' = active s /\ swallowed s' = swallowed s /\ cup s' = true.
+Proof. exact unrenderable_delivery_answered. Qed.
+Print Assumptions C10_unrenderable_delivery_answered.
 
-(* the other excluded case: a non-Violation exception while the answer is serialized drops the connection (known finding) *)
+(* the excluded case: a non-Violation exception while the answer is serialized drops the connection (known finding) *)
 Theorem C10_answer_crash_drops_connection : forall e s, cup s = true -> d_ready e = true -> d_raises e = false ->
   (d_schema e = false \/ d_result_ok e = true) -> d_reqid e <> 0 -> d_answer e = SCrash ->
   cup (handle (InDelivered e) s) = false.
